@@ -25,6 +25,21 @@ CHECKS = {
  "C15": dict(technique="TLA+ spec (Douglas.tla: cells, leaf index, Active set on an integer-scaled grid) enumerated by TLC, replayed into a real Douglas model with installed cut points",
              text="Masks x n_cuts x cut vectors in every order x small datasets are enumerated by TLC with theorems (argmax of the bin logits = count of cuts below, order irrelevance, mask inertness); the real model must reproduce cells, leaf count, probability vectors at three temperatures, bit-identical predictions under masked-feature perturbation and the Active set.",
              note="d<=3, n_cuts<=3, half-integer cuts; T->0 checked at T=1e-3", ref="DESIGN §4 C15"),
+ "C05": dict(technique="TLA+ spec (Prox.tla: first-principles minimiser, transcribed algorithm, KKT/no-better-neighbour theorems in exact rationals) enumerated by TLC, replayed into the four proximal operators",
+             text="TLC enumerates integer rows, thresholds, hierarchy constants and all set partitions of <=4 features; the specification derives the minimiser of the documented objective piece by piece, proves (model-checks) that the LassoNet algorithm equals it, that it is feasible and that no grid neighbour is better, and the real operators are compared with it on stacked and mini-batched matrices (exact zeros where the spec says zero).",
+             note="small exact grids, rational-norm skip rows for HIER-PROX (irrational norms by a labelled numeric side check)", ref="DESIGN §4 C05"),
+ "C07": dict(technique="TLC model-checks Path.tla (safety invariants + liveness); real path() runs driven by a scripted GEMINI are trace-validated against PathTrace.tla which recomputes every comparison",
+             text="The path contract (aligned histories, stop rule, NaN abort, best-score/best-weights rule, restore, default replacement) is a TLA+ state machine whose invariants and termination are model-checked; real path() executions of the sparse estimators are recorded at every validation-score evaluation and must be behaviours of it, in exact mode (integer score scripts, every float comparison exact) and in float mode (real GEMINIs).",
+             note="max_patience>=1; dyadic keep/early-stopping factors in exact mode; termination of the real code under a call budget", ref="DESIGN §4 C07"),
+ "C10": dict(technique="TLC model-checks Train.tla (batch partition, step-count theorem); real fits recorded at _batchify/optimiser are trace-validated against TrainTrace.tla with an injective id affinity",
+             text="Every batched family x affinity source x batch size x decoration is fitted for real with an id column and the injective affinity Aff(i,j)=i*n+j; TLC checks for every delivered batch that it is the next min(bs,remaining) unseen samples and that the block has exactly those rows and columns in that order, and that the number of optimiser steps is max_iter*ceil(n/bs).",
+             note="n<=7; recorder wraps instance attributes and sklearn's BaseOptimizer.update_params", ref="DESIGN §4 C10"),
+ "C16": dict(technique="TLA+ table specification (Params.tla, Groups.tla) enumerated by TLC: one-parameter-off configurations, group lists, malformed data; replayed into every estimator / constructor / function",
+             text="Documented parameter domains (transcribed from docstrings, not from _parameter_constraints) are a TLA+ table; TLC enumerates every one-parameter-off configuration over a universe of representative values, all group lists over small feature sets and malformed inputs with the expected verdict; the real code must reject (ValueError/TypeError family, no fitted model left) or accept accordingly.",
+             note="representatives, one-off + pairwise rules; unclear boundaries are marked unspecified and not asserted", ref="DESIGN §4 C16"),
+ "C20": dict(technique="TLA+ protocol spec (Data.tla) of the RNG calls of the five generators; real generators run with a scripted, tagging RandomState subclass and trace-validated against DataTrace.tla; validity table replayed",
+             text="Each generator is a protocol over an abstract RNG (call order, documented parameters reaching the samplers, row i = tagged draw i of component y[i], permutation, affine structure); TLC validates recorded real call traces field by field and enumerates the validity table of parameter sets.",
+             note="NumPy's samplers trusted; documented constants transcribed from the cited constructions; moment test is a labelled numeric side check", ref="DESIGN §4 C20"),
 }
 def main():
     checks = []
